@@ -300,6 +300,23 @@ pub fn run(ctx: &Ctx) -> i32 {
     });
     let mut acc = acc;
     acc.merge(large);
+    // single TOML documents of a megabyte and more (TOML from a reader is buffered whole, up to a cap of
+    // 2 MiB under detection): sizes below, around and just under that cap
+    let big_sizes = [1_000_000usize, 1_999_990, 2_000_100, 2_050_000, (2 << 20) - 70];
+    let big = crate::par::run(big_sizes.len(), 1, |i, acc| {
+        let bytes = corpus::big_toml(big_sizes[i]);
+        acc.count("class_toml_of_a_megabyte_and_more");
+        acc.max("largest_input_bytes", bytes.len() as u64);
+        acc.distinct(&bytes);
+        for from in [Some(Fmt::Toml), None] {
+            let to = if i % 2 == 0 { Fmt::Json } else { Fmt::Msgpack };
+            let s = run_slice(&bytes, from, to);
+            for sc in [Sched::All, Sched::Fixed(65536), Sched::Fixed(8192)] {
+                compare(&bytes, from, to, &sc, "big_toml", &s, acc);
+            }
+        }
+    });
+    acc.merge(big);
     // deeply nested documents: each format's depth limit is enforced by different code for
     // slices (MessagePack: a size pre-pass) and readers, so the verdict at every depth must agree
     let mut deep_cases = vec![];
@@ -358,7 +375,7 @@ pub fn run(ctx: &Ctx) -> i32 {
     });
     acc.merge(seed_acc);
     let rule = format!(
-        "{} mixed corpus inputs (valid single/multi-document streams of every format, mutants, splices, seeds, random bytes/tokens) x relevant source selections x 4 targets x schedules [all, one, fixed(n), 2 random, boundary cuts], plus EVERY token sequence of length 1..={} over each format's alphabet x [own format, detect] x 2 targets x [all, one], plus {} large valid streams (50-1500 documents, up to 2 MiB) under 7 schedules incl. fixed(8191/8192/8193), plus documents nested to half of, just below, at and just beyond each format's depth limit (arrays, maps, mixtures; MessagePack also with 16/32-bit headers and wide collections, and at 100..1000), plus every hand-written seed input (degenerate streams, rare syntax forms, used directives, CR / CRLF line breaks) x [own format, detect] x 4 targets x 4 schedules; each evaluation is one (slice run, reader run) pair; distinct non-trivial = distinct non-empty input byte strings",
+        "{} mixed corpus inputs (valid single/multi-document streams of every format, mutants, splices, seeds, random bytes/tokens) x relevant source selections x 4 targets x schedules [all, one, fixed(n), 2 random, boundary cuts], plus EVERY token sequence of length 1..={} over each format's alphabet x [own format, detect] x 2 targets x [all, one], plus {} large valid streams (50-1500 documents, up to 2 MiB) under 7 schedules incl. fixed(8191/8192/8193), plus single TOML documents of 1 000 000 .. 2 MiB - 70 bytes (named and detected, 3 schedules), plus documents nested to half of, just below, at and just beyond each format's depth limit (arrays, maps, mixtures; MessagePack also with 16/32-bit headers and wide collections, and at 100..1000), plus every hand-written seed input (degenerate streams, rare syntax forms, used directives, CR / CRLF line breaks) x [own format, detect] x 4 targets x 4 schedules; each evaluation is one (slice run, reader run) pair; distinct non-trivial = distinct non-empty input byte strings",
         n_mixed, max_tok, n_large
     );
     let mut extra = serde_json::Map::new();
